@@ -30,8 +30,9 @@ OPEN_STATEMENTS = [
     'matrix, every n); the coordinate assembly over several terms (values in CSC order zipped with the swapped '
     'row-major nonzero() indices, duplicate summation, eliminate_zeros) and jw_sparse_sound are Corr + oracle only '
     '(all entries compared exactly on <= 5 qubits)',
-    'matvec_sound is proved (matvec_term_sound + matvec_linear); diagonal_sound (get_linear_qubit_operator_diagonal) '
-    'and the equality of the parallel reduction with the undivided operator (sum over groups) are Corr + oracle only',
+    'matvec_sound (matvec_term_sound + matvec_linear), diagonal_term_sound and parallel_matvec_sound are proved at the '
+    'level stated in Properties/C06.lean (per term resp. per entry); the summation of the diagonal over the terms '
+    '(linearDiagonal) is Corr + oracle only',
     'truncated boson / quadrature matrices (sqrt amplitudes): numeric correspondence only',
     'expectation / variance / eigenspectrum: contract-only glue over scipy, numeric correspondence',
     'OS-level behaviour of multiprocessing.Pool (fork, pickling, worker death) is not expressible',
